@@ -259,6 +259,38 @@ def mk_pipeline_single(name, params=None, copies=1):
     return body
 
 
+def mk_pipeline_topup(name, twin, truncated):
+    """whole pipeline on a two-MODEL file whose second model lacks a side chain, in a structure that also contains two
+    residues sharing a number (insertion-coded twins): every conformation ends up with every atom, and the residue's
+    group exists in both"""
+    def body(ctx):
+        from . import micro as M
+        from .c19 import truncate_side_chain
+        txt = M.text(name)
+        src, dst = twin
+        txt = ''.join((l[:22] + '%4d' % dst + 'A' + l[27:] + '\n') if (l.startswith('ATOM') and int(l[22:26]) == src) else (l + '\n') for l in txt.split('\n') if l)
+        order = ctx.choice('truncated_model', [2, 1])
+        parts = [txt, truncate_side_chain(txt, truncated)]
+        if order == 1:
+            parts.reverse()
+        k = ctx.int('shift_thousandths', 0, 2509)
+        t = k / 1000.0 if ctx.native else k / 1000
+
+        def tr(a):
+            a.y = a.y + t
+        mol = M.run(M.models(*parts), transform=tr)
+        names = list(mol.conformation_names)
+        ctx.claim('two-conformations', len(names) == 2)
+        full = sorted(M.akey(a) for a in M.run(txt).conformations['1A'].atoms if a.element != 'H')
+        for n in names:
+            got = sorted(M.akey(a) for a in mol.conformations[n].atoms if a.element != 'H')
+            ctx.claim('conformation-completed', got == full, detail='%s: %d heavy atoms, %d expected; missing %r' % (n, len(got), len(full), sorted(set(full) - set(got))[:4]))
+        g0 = sorted(_gkey(g) for g in mol.conformations[names[0]].groups)
+        g1 = sorted(_gkey(g) for g in mol.conformations[names[1]].groups)
+        ctx.claim('same-groups-in-both-conformations', g0 == g1, detail='only in one: %r' % (sorted(set(g0) ^ set(g1))[:4],))
+    return body
+
+
 def obligations(tier):
     I = 'propka/input.py:'
     M = 'propka/molecular_container.py:MolecularContainer.'
@@ -291,6 +323,12 @@ def obligations(tier):
     obs.append(Obligation('O4-single-and-identical', o_single_and_identical, code=[M + 'average_of_conformations'],
                           bounds='K in {1,2,3} identical conformations, determinant pattern (2,1,1), symbolic values',
                           claim_doc='the average reproduces the (common) conformation'))
+    for name, twin, trunc in ([('pep8', (30, 29), 25)] if tier == 'quick' else [('pep8', (30, 29), 25), ('pep8', (27, 26), 30), ('pair_ASP_ARG', (30, 29), 87)]):
+        obs.append(Obligation('O2-pipeline-top-up[%s,%d->%dA,side chain %d missing in one MODEL]' % (name, twin[0], twin[1], trunc), mk_pipeline_topup(name, twin, trunc),
+                              code=[M + 'top_up_conformations', 'propka/conformation_container.py:ConformationContainer.top_up_from_atoms', 'propka/conformation_container.py:ConformationContainer.top_up',
+                                    'propka/run.py:single (whole pipeline)'],
+                              bounds='two-MODEL file from %s with residue %d renumbered %dA (two residues share a number); the side chain of residue %d is missing in MODEL 2 or in MODEL 1; symbolic grid shift' % (name, twin[0], twin[1], trunc),
+                              claim_doc='both conformations end up with every heavy atom and the same groups', max_paths=5000, wall_s=170))
     from . import micro as MM
     fxs = [('complex_MTX2', MM.BURIED, 1), ('pair_ASP_ARG', MM.BURIED, 2)] if tier == 'quick' else [('complex_MTX2', MM.BURIED, 1), ('complex_MTX2', None, 2), ('pair_ASP_ARG', MM.BURIED, 2),
                                                                                                         ('complex_ZN', MM.BURIED, 1), ('pep8', MM.COUPLED, 3), ('lig_KNI', None, 1)]
